@@ -89,8 +89,13 @@ pub fn generate(
 fn generate_classes(file: &ast::File) -> (HashMap<String, Class>, ClassHeirarchy) {
     let mut classes: HashMap<String, Class> = HashMap::new();
     let mut heirarchy = ClassHeirarchy::new();
+    // Source position of every class, to list children in source order below.
+    let mut positions: HashMap<String, usize> = HashMap::new();
 
     for decl in file.declarations.iter() {
+        if let Some(id) = decl.id() {
+            positions.insert(Class::name_from_id(id), decl.loc.start.offset);
+        }
         #[cfg(feature = "verif-sim")]
         crate::verif_sim::yield_point("java:decl");
         match &decl.desc {
@@ -199,6 +204,11 @@ fn generate_classes(file: &ast::File) -> (HashMap<String, Class>, ClassHeirarchy
             }
         }
     }
+
+    // The analyzer moves a declaration in front of its first user, so the order in which
+    // children were met above depends on unrelated declarations. List them in source order
+    // (see ast::File::iter_children); fallback children have no position and stay first.
+    heirarchy.sort_children_by_key(|name| positions.get(name).copied());
 
     (classes, heirarchy)
 }
